@@ -145,6 +145,8 @@ def harnesses(ctx) -> List[H]:
                  "return with_class_ok(n, r)", timeout=60, group="text", expect="unknown"))
     hs.append(mk("c18_shared_wrapper", "r: bool, same_name: bool", [], "return shared_wrapper_ok(r, 3, same_name)", timeout=60, group="property",
                  covers="one Property wrapper used by two owners under different / equal names"))
+    hs.append(mk("c18_nasty_text", "i: int, w: int", [f"0 <= i < {len(NASTY_TEXT)}", "0 <= w < 4"], f"return nasty_text_ok(concretize_int(i, 0, {len(NASTY_TEXT) - 1}), concretize_int(w, 0, 3))", timeout=120, group="text",
+                 covers="18 strings with backslashes, quotes, control characters, format characters x 4 places a string can sit in (default/pattern, const/enum/description, format/source/required/dependencies, nested defaults)"))
     hs.append(mk("c18__reach", "f1: bool, n: int", [], "return not (f1 and args_ok(Integer(minimum=n)))", kind="witness", timeout=20))
     return hs
 
@@ -165,6 +167,25 @@ def after_use_ok(e):
 
     for v in (0, "x", None, [1, "a"], {"a": 1}, {}, [], True):
         accepts(e, v)
+    return text_ok(e) and args_ok(e)
+
+
+NASTY_TEXT = ["\\", "a\\", "\\\\", "C:\\temp\\", "\\n\n", "\\d+\r", "\x00\\", "'", '"', "\\'", "'\\", "\n", "\t\\t", "{}", "%s\\", "\u2028\\", "r'x'", "\\N{DASH}"]
+
+
+def nasty_text_ok(i, where):
+    """string literals with backslashes / quotes / control characters in every place a string can sit in a repr"""
+    from vf.common import Element, String, Property, Array
+
+    t = NASTY_TEXT[i]
+    if where == 0:
+        e = String(default=t, pattern=t if t.isprintable() and "\\" not in t and "{" not in t else "a")
+    elif where == 1:
+        e = Element(const=t, enum=[t, [t], {t: t}], description=t)
+    elif where == 2:
+        e = Element(properties={"p": Property(String(format=t), source=t or "p")}, required=[t], dependencies={t: [t]})
+    else:
+        e = Array([String(default=t)], additionalItems=Element(default={"k": [t]}), default=[t])
     return text_ok(e) and args_ok(e)
 
 
